@@ -130,6 +130,14 @@ pub fn alphabet() -> Vec<(String, Event)> {
     for (n, k) in [("Ctrl-Esc", KeyCode::Esc), ("Ctrl-Enter", KeyCode::Enter), ("Shift-Up", KeyCode::Up), ("Alt-Home", KeyCode::Home)] {
         v.push((n.to_string(), Event::Key(KeyEvent::new(k, if n.starts_with("Ctrl") { KeyModifiers::CONTROL } else if n.starts_with("Alt") { KeyModifiers::ALT } else { KeyModifiers::SHIFT }))));
     }
+    // key release and auto-repeat reports (terminals with the keyboard-enhancement protocol send them)
+    for c in ['q', 'j', '/', 'a', '-', 'x'] {
+        v.push((format!("Release-{c}"), Event::Key(KeyEvent::new_with_kind(KeyCode::Char(c), KeyModifiers::NONE, crossterm::event::KeyEventKind::Release))));
+        v.push((format!("Repeat-{c}"), Event::Key(KeyEvent::new_with_kind(KeyCode::Char(c), KeyModifiers::NONE, crossterm::event::KeyEventKind::Repeat))));
+    }
+    for (n, k) in [("Release-Esc", KeyCode::Esc), ("Release-Enter", KeyCode::Enter), ("Repeat-Backspace", KeyCode::Backspace), ("Repeat-Down", KeyCode::Down)] {
+        v.push((n.to_string(), Event::Key(KeyEvent::new_with_kind(k, KeyModifiers::NONE, if n.starts_with("Release") { crossterm::event::KeyEventKind::Release } else { crossterm::event::KeyEventKind::Repeat }))));
+    }
     for w in [0u16, 80, 131, u16::MAX] {
         v.push((format!("Tick({w})"), Event::Tick(w)));
     }
@@ -162,7 +170,7 @@ pub fn canon(mut s: St) -> St {
 /// the key code behind an event name: the handler dispatches on the code alone, so a documented key pressed with
 /// a modifier is still that key (Ctrl-q is q), and is judged as such
 fn base_name(name: &str) -> String {
-    for p in ["Ctrl-", "Alt-", "Shift-"] {
+    for p in ["Ctrl-", "Alt-", "Shift-", "Release-", "Repeat-"] {
         if let Some(rest) = name.strip_prefix(p) {
             return if rest.chars().count() == 1 { format!("Char({rest})") } else { rest.to_string() };
         }
@@ -705,6 +713,40 @@ pub fn run_render(ctx: &Ctx, rep: &Report) {
         });
         let c = cnt.load(std::sync::atomic::Ordering::Relaxed);
         rep.part("draw at every terminal size (width 0..=300 x 43 heights), 3 tables x search on/off x width known/unknown", c, json!({}));
+        total_trans += c;
+        total_states += c;
+    }
+    // very long queries: '/' followed by 63..=300 characters, then Enter / Esc / Backspace, a draw after every key
+    {
+        let mut c = 0u64;
+        for ch in ['a', '4', '.', '(', '\u{e9}'] {
+            for len in [63usize, 64, 65, 100, 300] {
+                for last in [KeyCode::Enter, KeyCode::Esc, KeyCode::Backspace] {
+                    let mut s = St2 { total: 3, core: St { n: 0, sel: Some(0), quit: false, search: false, sort: 3, asc: false, query: String::new(), width: 0 } };
+                    let mut evs = vec![Event::Key(KeyEvent::new(KeyCode::Char('/'), KeyModifiers::NONE))];
+                    evs.extend(std::iter::repeat(Event::Key(KeyEvent::new(KeyCode::Char(ch), KeyModifiers::NONE))).take(len));
+                    evs.push(Event::Key(KeyEvent::new(last, KeyModifiers::NONE)));
+                    for (i, ev) in evs.iter().enumerate() {
+                        c += 1;
+                        match step2(&s, *ev) {
+                            Ok(t) => {
+                                if let Some(k) = t.core.sel {
+                                    if t.core.n == 0 && k != 0 || t.core.n > 0 && k >= t.core.n {
+                                        rep.violation("render:selection-out-of-range", format!("selected index {k} with {} rows while typing a query of {i} characters", t.core.n), json!({"kind": "long-query", "char": ch.to_string(), "len": len}));
+                                    }
+                                }
+                                s = t;
+                            }
+                            Err(p) => {
+                                rep.violation(&format!("panic:long-query:{}:{}", last_panic_file(), panic_class(&p)), format!("{p} (at {}) after '/' and {i} x {ch:?}", last_panic_loc()), json!({"kind": "long-query", "char": ch.to_string(), "len": len}));
+                                break;
+                            }
+                        }
+                    }
+                }
+            }
+        }
+        rep.part("very long search queries (63..=300 characters), a draw after every key", c, json!({}));
         total_trans += c;
         total_states += c;
     }
